@@ -301,7 +301,14 @@ def run(repo, chk):
     chk.rule('C03.J8', 'control does not fall off the end of a function into foreign code: exit-mode soundness and implicit return '
                        '(shared with C16.E1/E3)')
     from . import c16
-    c16.run(repo, Remap(chk, {'C16.E1': 'C03.J8', 'C16.E3': 'C03.J8'}))
+    c16.run(repo, Remap(chk, {'C16.E1': 'C03.J8', 'C16.E3': 'C03.J8', 'C16.E4': 'C03.J8'}))
+    # a defeat site is only averted where the grammar admits it: inside a try body or a defeat function.  The context the
+    # grammar hands to each position (try body vs handler, function flavour) is decided exhaustively in C06.V1
+    chk.rule('C03.J9', 'defeat calls / preempt / try are accepted exactly in the documented contexts (handlers are parsed in the '
+                       'enclosing context, not the try context) - shared with C06.V1')
+    if chk.__class__.__name__ == 'Check':
+        from . import c06
+        c06.run(repo, Remap(chk, {'C06.V1': 'C03.J9'}))
     chk.sample({'jump_site_forms': {s: sorted(f) for s, f in list(sorted(site_forms.items()))[:10]}})
     chk.sample({'stdlib_jump_roles': [f'{at.ins[i]} -> {r[0]}' for i, r in list(sorted(tf.jumps.items()))[:8]]})
     chk.not_decided = ['the VM implementation of the Turing jump', 'behaviour excluded by the property (UB)']
